@@ -134,6 +134,35 @@ pub fn run_step_cases(args: &Args) -> Result<()> {
         for i in 0..n {
             jobs.push(Job { fi, i, kind: 0 });
         }
+        // systematic value grid (C02 / C03): see gen::GRID_BASE
+        let f = &forms[fi];
+        let binary = matches!(f.mn.as_str(), "ADD" | "SUB" | "CMP" | "ADDX" | "AND" | "OR" | "XOR");
+        let unary = matches!(f.mn.as_str(), "NEG" | "INC" | "DEC" | "NOT" | "EXTU" | "SHAL" | "SHAR" | "SHLL" | "SHLR" | "ROTL" | "ROTR" | "ROTXL" | "ROTXR");
+        if (prop == "C02" || prop == "C03") && (binary || unary) && !f.a.is_mem() && !f.b.is_mem() {
+            let thorough = tier != "quick";
+            if unary {
+                for rep in 0..(if thorough { 8 } else { 2 }) {
+                    for pa in 0..256usize {
+                        jobs.push(Job { fi, i: crate::gen::GRID_BASE + rep * 256 + pa, kind: 0 });   // rep only varies CCR / registers
+                    }
+                }
+            } else if f.sz == 1 {
+                let srcs: Vec<usize> = if thorough { (0..256).collect() } else { crate::gen::GRID_SRC_QUICK.iter().map(|x| *x as usize).collect() };
+                for pb in srcs {
+                    for pa in 0..256usize {
+                        jobs.push(Job { fi, i: crate::gen::GRID_BASE + pb * 256 + pa, kind: 0 });
+                    }
+                }
+            } else {
+                let nsrc = if thorough { 256 } else { 10 };
+                for q in 0..nsrc {
+                    let pb = if thorough { q } else { [0x00usize, 0x55, 0xaa, 0xff, 0x1b, 0xe4, 0x39, 0xc6, 0x6c, 0x93][q] };
+                    for pa in 0..256usize {
+                        jobs.push(Job { fi, i: crate::gen::GRID_BASE + pb * 256 + pa, kind: 0 });
+                    }
+                }
+            }
+        }
     }
     let knobs = Arc::new(knobs_for(&prop));
     let jobs = Arc::new(jobs);
